@@ -58,7 +58,7 @@ class DiskImageContentExtractor(DiskImageWorker):
                 listener.onBeginOfFile(file)
                 extractedFileName = (
                     file["name"].rstrip() + "." + file["extension"].rstrip()
-                )
+                ).replace(os.sep, "_")
                 data = controller.readFile(entry)
                 with open(os.path.join(sidePath, extractedFileName), "wb") as outf:
                     outf.write(data)
